@@ -184,8 +184,14 @@ func Run(sc *Scenario, hooks *Hooks) *Outcome {
 	}
 
 	var wg sync.WaitGroup
-	doOp := func(op string) {
+	var doOp func(op string)
+	doOp = func(op string) {
 		switch {
+		case strings.HasPrefix(op, "bg:"):
+			// run the operation in the background (it may block, e.g. a graceful stop
+			// against an unresponsive destination)
+			wg.Add(1)
+			go func() { defer wg.Done(); doOp(strings.TrimPrefix(op, "bg:")) }()
 		case op == "stop":
 			_ = r.Stop(ctx, sc.Topo.Pipeline, false)
 		case op == "stopwait":
